@@ -2,7 +2,7 @@
 from props_common import COMMON_NOTE
 
 CONF = dict(
-    families=[('taptree', 60, 1500), ('tapcb', 80, 2000), ('taptweak', 150, 5000)],
+    families=[('taptree', 48, 1500), ('tapcb', 50, 2000), ('taptweak', 150, 5000)],
     compare=None,
     trusted=[
         'modelled by hand: TapElementsLeaf.TapHash, tapElementsBranchHash, AssembleTaprootScriptTree, leafDescendants, ControlBlock.RootHash, ToControlBlock, VerifyTaprootLeafCommitment, TweakTaprootPrivKey, ComputeTaprootOutputKey (taproot/taproot.go), txscript.ControlBlock.ToBytes / ParseControlBlock (btcd, called by the wrapper), the InputTapLeafScript key pair of psetv2/input.go',
@@ -16,11 +16,11 @@ CONF = dict(
         'abelian group: mulG is a homomorphism from Z/n, lift_x(x(P)) is the even-y point of {P, -P}, negation keeps x (tweaked_priv_matches_output_key)',
         'not proved: a control block whose internal-key bytes are altered fails (needs a random-oracle argument, not injectivity); searched by S only',
     ],
-    explanation='theorems: the ordered branch hash is commutative (proved from bytes.Compare); for every leaf list with distinct leaf hashes AssembleTaprootScriptTree does not panic, terminates, commits to exactly the leaves and the proof accumulated for every leaf recomputes the root (induction over the pairing pass and the FIFO merge queue, through the hash-keyed index); ToBytes/ParseControlBlock and the PSET key pair round-trip; every control block verifies against the one output key with the right parity; other script / leaf version / single altered node / flipped parity / other output key fail under injective hashes; (tweaked d)*G = output key for both parities of d*G; "tweaking leaves the caller\'s key unchanged" is REFUTED (the caller\'s scalar is overwritten with the tweaked key). K: root, every control block, parse results, root hashes and verdicts, tweaked keys and the caller\'s key afterwards, bit for bit. S: every clause on the implementation, incl. all positions of single-byte corruptions, p2tr payment and PSET round trip.',
+    explanation='theorems: the ordered branch hash is commutative (proved from bytes.Compare); for every leaf list with distinct leaf hashes AssembleTaprootScriptTree does not panic, terminates, commits to exactly the leaves and the proof accumulated for every leaf recomputes the root (induction over the pairing pass and the FIFO merge queue, through the hash-keyed index); ToBytes/ParseControlBlock and the PSET key pair round-trip; every control block verifies against the one output key with the right parity; other script / leaf version / single altered node / flipped parity / other output key fail under injective hashes; (tweaked d)*G = output key for both parities of d*G; tweaking leaves the caller\'s key unchanged (the model follows fix fefe606: the scalar is copied before Negate/Add; on the pre-fix tree K and S report it). K: root, every control block, parse results, root hashes and verdicts, tweaked keys and the caller\'s key afterwards, bit for bit. S: every clause on the implementation, incl. all positions of single-byte corruptions, p2tr payment and PSET round trip.',
 )
 
 TEXT = dict(
-    text='Machine-checked proof (Coq): for every list of tapscript leaves with distinct leaf hashes (any count, any shape the assembler produces) AssembleTaprootScriptTree neither panics nor runs out of steps, the tree commits to exactly those leaves, and the inclusion proof accumulated for each leaf through the hash-keyed index recomputes the root, also after ControlBlock.ToBytes / ParseControlBlock; each control block verifies against the single output key with the correct parity bit; under injective leaf/branch hashes and an ideal tweak commitment another script, leaf version, a single altered proof node, the flipped parity bit or another output key fail; the private key tweaked for a root corresponds to the output key of the public key and that root for both parities of d*G (abstract abelian group). The clause "tweaking leaves the caller\'s key unchanged" is refuted by the code (TweakTaprootPrivKey negates/adds in the caller\'s scalar): recorded as a known finding with a _refuted theorem and a _partial remainder. Tagged SHA-256, control-block layout, x-coordinate validity and scalar arithmetic mod n are executable Gallina compared bit for bit with the implementation; curve points enter the model as oracle values computed by btcec.',
+    text='Machine-checked proof (Coq): for every list of tapscript leaves with distinct leaf hashes (any count, any shape the assembler produces) AssembleTaprootScriptTree neither panics nor runs out of steps, the tree commits to exactly those leaves, and the inclusion proof accumulated for each leaf through the hash-keyed index recomputes the root, also after ControlBlock.ToBytes / ParseControlBlock; each control block verifies against the single output key with the correct parity bit; under injective leaf/branch hashes and an ideal tweak commitment another script, leaf version, a single altered proof node, the flipped parity bit or another output key fail; the private key tweaked for a root corresponds to the output key of the public key and that root for both parities of d*G (abstract abelian group). Tweaking leaves the caller\'s key unchanged (proved of the model of the fixed code, /repo commit fefe606; the pre-fix code overwrote the caller\'s scalar with the tweaked key, which the check reports as a violation). Tagged SHA-256, control-block layout, x-coordinate validity and scalar arithmetic mod n are executable Gallina compared bit for bit with the implementation; curve points enter the model as oracle values computed by btcec.',
     note=COMMON_NOTE + 'Hash injectivity, 32-byte digests (abstract version only), group laws and the tweak-commitment injectivity are Section hypotheses, each with a satisfiability Example; no axioms. Not covered by a theorem: failure after altering the internal-key bytes of a control block (random-oracle argument) — searched by S.',
     technique='Coq proof (queue-invariant induction over the assembler, codec round trip, injectivity, abstract-group algebra) + differential check with executable tagged SHA-256 + implementation-side perturbation search',
 )
